@@ -209,9 +209,9 @@ theorem auto_names_witness :
 
 /-! ## the value part of an auto-generated constant name (`toidentifier`, Models/ConstName.lean)
 
-FULL statement wanted by `no_alias` (false of the code as written): `ident` is injective — two constants
-with different values (of one `like` type) never get the same name `constant_<ident>`.  What holds and
-what does not: -/
+FULL statement wanted by `no_alias`: `ident` is injective — two constants with different values (of one
+`like` type) never get the same name `constant_<ident>`.  Proved for ints; for floats / complex values it is
+decided by search (value families, every run); two former collisions are regression witnesses: -/
 
 open FAVerif.ConstName in
 /-- the name of a complex constant is `"c"` followed by the names of BOTH parts; constants with the same
@@ -234,16 +234,20 @@ theorem const_name_int_inj (a b : Int) (h : identInt a = identInt b) : a = b :=
   FAVerif.ConstName.identInt_inj a b h
 
 open FAVerif.ConstName in
-/-- Negation witnesses of injectivity (replayed on the real code, known findings):
-(1) the sign of zero is lost: `0.0` and `-0.0` are both `f0`, `1+0j` and its conjugate `1-0j` both `cf1f0`
-    (since /repo ab6dc38 these are distinct expressions, so they now share a variable);
-(2) numpy scalars: the bytes of a non-integral value are printed in hex WITHOUT zero padding, so the
-    float32 patterns 0x3f011000 and 0x3f110000 are both `f0x3f1100`. -/
-theorem const_name_witness :
-    (ident (.pyfloat 0)).toOption = some "f0" ∧ (ident (.pyfloat 0x8000000000000000)).toOption = some "f0" ∧
+/-- Regression witnesses for two repaired collisions (both were known findings, replayed on the real code):
+(1) the sign of zero (fixed in /repo by a45d4e7): `0.0` ↦ `f0` but `-0.0` ↦ `fneg0`, `1+0j` ↦ `cf1f0` but its
+    conjugate `1-0j` ↦ `cf1fneg0`; numpy float32 `-0.0` ↦ `fneg0`;
+(2) numpy scalars (fixed by b8b6842): every byte of a non-integral value is printed as TWO hex digits, so the
+    float32 patterns 0x3f011000 and 0x3f110000 are `f0x3f011000` and `f0x3f110000`; the old un-padded encoding
+    (`hexBytesOld`) mapped both to `3f1100`. -/
+theorem const_name_regression :
+    (ident (.pyfloat 0)).toOption = some "f0" ∧ (ident (.pyfloat 0x8000000000000000)).toOption = some "fneg0" ∧
     (ident (.pycomplex 0x3ff0000000000000 0)).toOption = some "cf1f0" ∧
-    (ident (.pycomplex 0x3ff0000000000000 0x8000000000000000)).toOption = some "cf1f0" ∧
-    (ident (.npfloat 32 0x3f011000)).toOption = some "f0x3f1100" ∧ (ident (.npfloat 32 0x3f110000)).toOption = some "f0x3f1100" := by decide +kernel
+    (ident (.pycomplex 0x3ff0000000000000 0x8000000000000000)).toOption = some "cf1fneg0" ∧
+    (ident (.npfloat 32 0x80000000)).toOption = some "fneg0" ∧
+    (ident (.npfloat 32 0x3f011000)).toOption = some "f0x3f011000" ∧
+    (ident (.npfloat 32 0x3f110000)).toOption = some "f0x3f110000" ∧
+    hexBytesOld 32 0x3f011000 = "3f1100" ∧ hexBytesOld 32 0x3f110000 = "3f1100" := by decide +kernel
 
 /-! ## non-vacuity: a concrete DAG with sharing meets every hypothesis -/
 
